@@ -32,6 +32,9 @@ def small_cases(ctx):
     # recorded files whose size differs from the recorded one (g: grown since the baseline was written, k: shrunk) in front
     # of / behind an unrecorded violator: recorded is recorded, neither may stop a fail-fast run
     pl = [("go" + "u" * (k - 2), [0]), ("gok" + "u" * (k - 3), [0, 2]), ("gg" + "o" * (k - 2), [0, 1]), ("kwo" + "g" * (k - 3), [0])] + pl
+    # a renamed / copied recorded file (m): the entry of the path that is gone carries this file's hash; the file is unrecorded,
+    # so it stops a fail-fast run like any new violation and is reported failed; in front of and behind other violators
+    pl = [("mo" + "u" * (k - 2), []), ("mou" + "o" * (k - 3), [1]), ("um" + "w" * (k - 2), None), ("mg" + "o" * (k - 2), [1])] + pl
     # one file named twice: by its own name and through a symlink that falls under a laxer content rule (l), every order
     pl = [("ol" + "u" * (k - 2), None), ("olo" + "u" * (k - 3), [2]), ("lgo" + "l" * (k - 3), [1]), ("wl" + "o" * (k - 2), None)] + pl
     out = []
@@ -66,6 +69,18 @@ def run(ctx):
         order = list(range(n))
         rng.shuffle(order)
         jobs.append(("stale", sizes, bl, [None] if full else [order], [1, 4] if ctx.tier == "quick" else [1, 2, 4, 16], 1, i % 2 == 1, False, False, full, mode, rng.choice([1, 2])))
+    # the default baseline file lies in the project, a ratchet mode is set by flag or by [baseline] ratchet (upper case), but
+    # --baseline is NOT given: nothing is loaded, so nothing is grandfathered - with and without fail-fast - and the file stays
+    nnob = 8 if ctx.tier == "quick" else 24
+    for i in range(nnob):
+        n = rng.choice([3, 4, 6])
+        sizes = "o" + "".join(rng.choice("uwo") for _ in range(n - 1))
+        fails = [j for j, c in enumerate(sizes) if c == "o"]
+        bl = [0] + [j for j in fails[1:] if rng.random() < 0.5]
+        mode = ["w", "s", "a", "W", "S", "A"][i % 6]
+        full = i % 3 == 2
+        orders = [None] if full else [list(range(n)), rng.sample(range(n), n)]
+        jobs.append(("nobaseline", sizes, bl, orders, [1, 4], 1, i % 2 == 1, False, False, full, mode, 0, None, True))
     # runs that update the baseline: fail-fast must not change what is written (an updating run evaluates everything);
     # new failures in front of files the loaded baseline grandfathers, every mode, with and without the old file loaded
     nup = 8 if ctx.tier == "quick" else 32
@@ -80,7 +95,7 @@ def run(ctx):
     reps = 2 if ctx.tier == "quick" else 3
     for i in range(nbig):
         n = rng.choice([8, 12, 20, 40]) if ctx.tier == "quick" else rng.choice([8, 20, 40, 60])
-        sizes = "".join(rng.choice("uuuwwoeyrgl" if i % 3 else "uwooeyrggkl") for _ in range(n))
+        sizes = "".join(rng.choice("uuuwwoeyrglm" if i % 3 else "uwooeyrggklm") for _ in range(n))
         fails = [j for j, c in enumerate(sizes) if c in "orgk"]
         bl = None if i % 4 == 3 else [j for j in fails if rng.random() < 0.5]
         orders = []
@@ -133,7 +148,7 @@ def run(ctx):
     nontrivial = set()
     for t in traces:
         dist[t["part"]] = dist.get(t["part"], 0) + 1
-        slimt = {k2: t[k2] for k2 in ("sizes", "baseline", "order", "threads", "ff_cfg", "wae", "wo", "full_scan", "exit", "exit_noff", "ratchet", "ghosts", "update")}
+        slimt = {k2: t[k2] for k2 in ("sizes", "baseline", "order", "threads", "ff_cfg", "wae", "wo", "full_scan", "exit", "exit_noff", "ratchet", "ghosts", "update", "nob")}
         slimt["observed"] = [r["path"] + ":" + r["status"] for r in t["obs"]]
         if not t["ffsub"]:
             tie_bad.append({"what": "observed result list is not ff_sub of the full run", "trace": slimt})
@@ -146,6 +161,24 @@ def run(ctx):
         if not t["eval_ok"]:
             findings.append({"prop": "C11", "class": None, "trace": slimt,
                              "what": "results of the run without fail-fast differ from the independent evaluation of the listed files (order %s): %s" % (t["order"], t["eval_diff"])})
+        # the run without fail-fast against the independent verdict: statuses by path and exit from the evaluation of each file
+        # and the KEYS of the loaded baseline (an entry grandfathers the file at its path and no other; no --baseline, nothing loaded)
+        sp = t["spec"]
+        got0 = {r["path"]: r["status"] for r in t["obs0"] if r["kind"] in ("n", "c")}
+        wrong = sorted(p for p in sp["status"] if p in got0 and got0[p] != sp["status"][p])
+        if wrong:
+            findings.append({"prop": "C11", "class": None, "trace": slimt,
+                             "what": "verdict of the run without fail-fast: %s reported %s, the independent evaluation says %s (baseline keys %s%s)" % (
+                                 wrong[0], got0[wrong[0]], sp["status"][wrong[0]], sorted(t["disk"] or {}), ", not loaded: no --baseline" if t.get("nob") else "")})
+        elif not (t.get("ratchet") or t.get("update")) and t["exit_noff"] != sp["exit"]:
+            findings.append({"prop": "C11", "class": None, "trace": slimt, "what": "verdict of the run without fail-fast: exit %d, the independent evaluation says %d" % (t["exit_noff"], sp["exit"])})
+        for r in t["obs"]:
+            if r["kind"] in ("n", "c") and r["path"] in sp["status"] and r["status"] != sp["status"][r["path"]]:
+                findings.append({"prop": "C11", "class": None, "trace": slimt,
+                                 "what": "verdict of the fail-fast run: %s reported %s, the independent evaluation says %s" % (r["path"], r["status"], sp["status"][r["path"]])})
+                break
+        if t.get("nob") and (view(t["disk1"]) or {}) != (view(t["disk"]) or {}):
+            findings.append({"prop": "C11", "class": None, "trace": slimt, "what": "no --baseline given, yet the default baseline file changed: %s -> %s" % (sorted(t["disk"] or {}), sorted(t["disk1"] or {}))})
         if t["exit"] != t["exit_noff"]:
             klass = None
             bl = t["disk"] or {}
@@ -187,6 +220,8 @@ def run(ctx):
                                      "scans_with_grandfathered_naming_violation": sum(1 for t in traces if "N" in t["sizes"]),
                                      "with_grown_or_shrunk_recorded_file": sum(1 for t in traces if t["baseline"] and any(t["sizes"][j] in "gk" for j in t["baseline"])),
                                      "with_symlink_alias_under_another_rule": sum(1 for t in traces if "l" in t["sizes"] and not t["full_scan"]),
+                                     "with_renamed_recorded_file(entry of a gone path carries the hash)": sum(1 for t in traces if "m" in t["sizes"]),
+                                     "ratchet_without_--baseline_default_file_present": sum(1 for t in traces if t.get("nob")),
                                      "with_unreadable_entry": sum(1 for t in traces if "e" in t["sizes"] and not t["full_scan"]),
                                      "with_entries_of_deleted_files_under_ratchet": sum(1 for t in traces if t.get("ghosts") and t.get("ratchet")),
                                      "updating_runs": sum(1 for t in traces if t.get("update"))}
